@@ -368,8 +368,8 @@ def arith(op, a, b, on_check, on_assume=None):
             return vfloat(x / y, nan)
         # symbolic divisor: name the quotient so that linear reasoning about it stays linear
         q = z3.Real(uid("quot"))
-        on_assume(implies(y != 0, q * y == x))
-        on_assume(implies(y != 0, q == x / y))
+        on_assume(implies(y != 0, q * y == x), str(q))
+        on_assume(implies(y != 0, q == x / y), str(q))
         return vfloat(q, nan)
     if op == "//":
         on_check("ZeroDivisionError", y != 0)
